@@ -79,6 +79,24 @@ Qed.
 Definition top_colors (cf : conf) (K : cls) : colours :=
   local_colors (fst (register_raw reg_fuel cf K)) K false.
 
+(* a no_color configuration hands out palettes without colours *)
+Lemma get_color_nocolor m s : get_color true m s = [].
+Proof. unfold get_color. destruct (zhas s m); [reflexivity|]. destruct (zhas dflt_synt m); reflexivity. Qed.
+
+Lemma top_colors_nocolor cf K : c_nocolor cf = true -> nc_colors (top_colors cf K).
+Proof.
+  intros H. unfold top_colors, local_colors, nc_colors. apply Forall_forall. intros x Hx.
+  apply in_map_iff in Hx as (y & <- & _). cbn [snd].
+  destruct (register_raw_step reg_fuel cf K) as (E & _). rewrite E, H. apply get_color_nocolor.
+Qed.
+
+Lemma pure_lines_nocolor_conf cf K ls :
+  c_nocolor cf = true -> pure_lines fts (top_colors cf K) (fun _ => []) ls = plain_lines ls.
+Proof.
+  intros H. unfold plain_lines. apply pure_lines_col_ext; [|reflexivity].
+  intros a. rewrite col_nc by (apply top_colors_nocolor; exact H). reflexivity.
+Qed.
+
 Lemma class_call_colours w copt K w' p :
   inv fts w -> class_call true w copt false K false = Ok (w', p) ->
   p_colors (pal_of w' p) = top_colors (conf_of (fst (cc_pre w copt)) (snd (cc_pre w copt))) K.
@@ -226,7 +244,7 @@ Definition item_noesc (it : item) : Prop :=
   match it with
   | IPlain t => no_esc t
   | IChunk _ _ t => no_esc t
-  | IEnum ft _ v _ _ => Forall (fun mc => at_noesc (snd mc)) (ft_texts fts ft v)
+  | IEnum ft _ _ v _ => Forall (fun mc => at_noesc (snd mc)) (ft_texts fts ft v)
   end.
 Definition obj_noesc (o : objspec) : Prop := Forall (Forall item_noesc) (o_lines o).
 
